@@ -15,7 +15,7 @@ CHECKS = {
          "Exploration: for every accepted generated command line the values recorded inside the Action must be consumable, token for token and in order, by some derivation of the reference automaton (nothing invented, dropped, duplicated, moved; tokens after -- verbatim); for specs without -- the option part must equal the reader's occurrence list, and a twin run with built-in variable types must agree.",
          "Trusted: admission search of DESIGN.md 3.4; recording types; unclaimed zones skipped and counted.", "5/C02"),
  "C03": ("crash / CPU-budget watchdog around isolated worker processes; hostile spec, argv and environment-subset workload",
-         "Exploration with a liveness watchdog: every case (compile + parse under all 32 subsets of env-backed options) runs in an isolated worker with a journal; worker death, an undocumented panic, a position outside the string or more than 5 CPU-seconds for one case is a violation attributed to the journalled input; a family of long (20-64 token) lines on ambiguous repetitions separates polynomial from exponential backtracking. 'Never hangs' is restated as this bounded progress.",
+         "Exploration with a liveness watchdog: every case (compile + parse under all 32 subsets of env-backed options) runs in an isolated worker with a journal; worker death, an undocumented panic, a position outside the string or more than 20 CPU-seconds for one library call is a violation attributed to the journalled input; a family of long (20-64 token) lines on ambiguous repetitions separates polynomial from exponential backtracking. 'Never hangs' is restated as this bounded progress.",
          "Trusted: the kernel per-thread CPU clocks, SetMaxStack, the journal surviving a process crash (page cache). Inputs bounded: spec <= 256 bytes, nesting <= 64, <= 5 options, argv <= 16 tokens.", "5/C03"),
  "C08": ("bounded-exhaustive + random differential monitor of the real lexer/parser (via Run and the VerifTokenize hook) against a reference recogniser; token-extent monitor",
          "Exploration, exhaustive over two finite families (all strings over 19 character classes up to length 4/6, all sequences of up to 4/6 of 15 tokens) plus random longer strings against every declared/undeclared naming and sequences of specs given in turn to one application object (optionally with a version flag requested): compile-or-reject must agree with the reference grammar, the reported position must lie in the offending lexeme / at the first token the LL(1) reading fails on, no hook or Action may run before the panic (also for a subcommand's spec), and the hooked token stream must tile the non-blank bytes of the spec exactly.",
